@@ -547,7 +547,7 @@ func execute(c Case, tapes *[][]uint32) batch.Result {
 				handed := map[string]*ir.Function{}
 				for _, name := range chk.order[2:] {
 					tp := chk.pkgs[name]
-					for _, tn := range []string{"Wrap", "PWrap", "Deep", "IW"} {
+					for _, tn := range []string{"Wrap", "PWrap", "Deep", "IW", "Mix", "WA"} {
 						obj := tp.Scope().Lookup(tn)
 						if obj == nil {
 							continue
@@ -565,7 +565,7 @@ func execute(c Case, tapes *[][]uint32) batch.Result {
 										continue
 									}
 									r.cnt["method_value_calls"]++
-									hk := types.TypeString(T, nil) + "." + ms.At(i).Obj().Name()
+									hk := types.TypeString(T, nil) + "." + ms.At(i).Obj().Id() // Id, not Name: unexported methods of different packages may share a name
 									if prev, ok := handed[hk]; ok && prev != fn {
 										r.fail("function-created-more-than-once", "two callers of MethodValue(%s) got two distinct functions (%p and %p): the wrapper was created twice", ms.At(i), prev, fn)
 									}
